@@ -321,3 +321,73 @@ _run_20 = run
 def run(ctx, rep):
     _run_20(ctx, rep)
     run_fat12_scan_bound(ctx, rep)
+
+
+# ---------------------------------------------------------------------------------------------
+# W4b  units at call boundaries: a parameter that is an (exclusive) end *cluster number* is not handed a plain cluster *count*.
+#      Valid numbers are 2 ..= count + 1, so the end is count + 2; the crate's convention is visible in the names -
+#      `end_cluster` is a number, `total_clusters` a count.
+
+def run_param_units(ctx, rep):
+    import re
+    facts = ctx.facts
+    num_rx = re.compile(r'(^|_)(end|max|last)_cluster$')
+    n = 0
+    for fn in facts.fns.values():
+        if fn.crate != 'fatfs':
+            continue
+        d = None
+        for b, t in fn.calls():
+            cf = facts.fns.get(t.get('callee') or '')
+            if cf is None or cf.crate not in ('fatfs', 'fatfs-inlined'):
+                continue
+            for i, a in enumerate(t['args']):
+                if i + 1 > cf.argc:
+                    break
+                pname = cf.locals[i + 1].get('name') or ''
+                if not num_rx.search(pname):
+                    continue
+                if d is None:
+                    d = Deps(fn)
+                # narrow dependence: not through self / parameters
+                toks, seen_l, work = set(), set(), []
+                p0 = op_place(a)
+                if p0 is None:
+                    continue
+                toks |= d._tokens_of_place(p0)
+                work.append(p0['l'])
+                while work:
+                    x = work.pop()
+                    if x in seen_l or 1 <= x <= fn.argc:
+                        # a parameter of the caller with a *count* name counts as a count
+                        if 1 <= x <= fn.argc and re.search(r'total_clusters$|cluster_count$', fn.locals[x].get('name') or ''):
+                            toks.add(('field', 'total_clusters'))
+                        continue
+                    seen_l.add(x)
+                    for tk in d.direct.get(x, ()):
+                        toks.add(tk)
+                        if tk[0] == 'local':
+                            work.append(tk[1])
+                is_count = ('field', 'total_clusters') in toks or any(tk[0] == 'call' and tk[1].endswith('::total_clusters') for tk in toks)
+                if not is_count:
+                    continue
+                n += 1
+                biased = (('const', 2) in toks or ('constpath', 'fatfs::table::RESERVED_FAT_ENTRIES') in toks) and \
+                    (('op', 'Add') in toks)
+                rep.oblige('W4b', '%s|bb%d|%s' % (fn.name, b, pname), ok=biased, nontrivial=True,
+                           sample={'fn': fn.name, 'at': fn.loc(t['span']), 'param': '%s of %s' % (pname, cf.name.rsplit('::', 1)[-1])})
+                if not biased:
+                    rep.violation('W4b', vkey('W4b', fn.name, pname, cf.name.rsplit('::', 1)[-1]), fn.loc(t['span']),
+                                  '%s passes a cluster *count* (total_clusters) where %s expects the exclusive end *cluster number* '
+                                  '`%s` (`%s`): numbers start at 2, so the last two clusters of the volume are treated as out of range' %
+                                  (fn.name, cf.name.rsplit('::', 1)[-1], pname, t['span']['snip'][:70]))
+    rep.counts['W4b.sites'] = n
+    rep.oblige('W4b.scan', 'fatfs', ok=True)
+
+
+_run_20b = run
+
+
+def run(ctx, rep):
+    _run_20b(ctx, rep)
+    run_param_units(ctx, rep)
